@@ -303,24 +303,21 @@ where
 
     /// Read the 'card specific data' block.
     fn read_csd(&mut self) -> Result<Csd, Error> {
-        match self.card_type {
-            Some(CardType::SD1) => {
-                let mut csd = CsdV1::new();
-                if self.card_command(CMD9, 0)? != 0 {
-                    return Err(Error::RegisterReadError);
-                }
-                self.read_data(&mut csd.data)?;
-                Ok(Csd::V1(csd))
-            }
-            Some(CardType::SD2 | CardType::SDHC) => {
-                let mut csd = CsdV2::new();
-                if self.card_command(CMD9, 0)? != 0 {
-                    return Err(Error::RegisterReadError);
-                }
-                self.read_data(&mut csd.data)?;
-                Ok(Csd::V2(csd))
-            }
-            None => Err(Error::CardNotFound),
+        if self.card_type.is_none() {
+            return Err(Error::CardNotFound);
+        }
+        let mut data = [0u8; 16];
+        if self.card_command(CMD9, 0)? != 0 {
+            return Err(Error::RegisterReadError);
+        }
+        self.read_data(&mut data)?;
+        // The register itself says which layout it uses (CSD_STRUCTURE, the
+        // top two bits). Standard-capacity version 2 cards use the version 1
+        // layout, so the card type is not a reliable guide.
+        match data[0] >> 6 {
+            0 => Ok(Csd::V1(CsdV1 { data })),
+            1 => Ok(Csd::V2(CsdV2 { data })),
+            _ => Err(Error::RegisterReadError),
         }
     }
 
